@@ -97,15 +97,16 @@ Definition p_put (p : pstate) (a : addr) (acc : pacct) : pstate :=
 Definition p_with_ts (p : pstate) (ts : option tstate) : pstate :=
   mkP (p_accounts p) (p_storage p) (p_contracts p) ts.
 
-(* `self.contracts.entry(info.code_hash).or_insert_with(|| info.code.clone().unwrap())` (PS:333):
-   None = the unwrap panics (entry vacant and the created info carries no code) *)
+(* `if let Some(code) = &info.code { self.contracts.entry(info.code_hash).or_insert_with(|| code.clone()) }`
+   (after fix 31a4458, finding F10; before it the code was unwrapped: a created account without code
+   panicked). Never None any more; the option type is kept for the callers. *)
 Definition p_add_contract (p : pstate) (i : info) : option pstate :=
   match p_contracts p (code_hash i) with
   | Some _ => Some p
   | None =>
       match code i with
       | Some c => Some (mkP (p_accounts p) (p_storage p) (fset (p_contracts p) (code_hash i) c) (p_ts p))
-      | None => None
+      | None => Some p
       end
   end.
 
